@@ -3,7 +3,7 @@ from .common import *  # noqa: F403
 from .c03_pus_tm import ref_tm
 from spacepackets.ecss.req_id import RequestId
 from spacepackets.ecss.tc import PusTc
-from spacepackets.ecss.fields import PacketFieldEnum
+from spacepackets.ecss.fields import PacketFieldEnum, PacketFieldU8, PacketFieldU16, PacketFieldU32
 from spacepackets.ecss.pus_1_verification import (
     Service1Tm, VerificationParams, FailureNotice, UnpackParams, InvalidVerifParams, Subservice,
     create_acceptance_success_tm, create_acceptance_failure_tm, create_start_success_tm, create_start_failure_tm,
@@ -63,7 +63,17 @@ def h_req_from_tc(ctx):
     ctx.holds("request id of a TC == first four octets of its packet", sym_and(r.pack() == raw[:4], r.as_u32() == from_be(items_of(raw)[:4])))
 
 
-def mk_params(ctx, sub, ws, we, nd, force_step=None, force_fail=None):
+_FIELD_CLS = {1: PacketFieldU8, 2: PacketFieldU16, 4: PacketFieldU32}
+
+
+def mk_field(width, val, concrete_cls):
+    """step id / error code field, either through the generic class or through the width-specific convenience class"""
+    if concrete_cls and width in _FIELD_CLS:
+        return _FIELD_CLS[width](val)
+    return PacketFieldEnum.with_byte_size(width, val)
+
+
+def mk_params(ctx, sub, ws, we, nd, force_step=None, force_fail=None, concrete_cls=False):
     req_raw = ctx.octets("req", 4)
     req = RequestId.unpack(req_raw)
     has_step = (sub in STEP_SUBS) if force_step is None else force_step
@@ -72,16 +82,16 @@ def mk_params(ctx, sub, ws, we, nd, force_step=None, force_fail=None):
     sid = fn = None
     if has_step:
         step = ctx.int("step", 0, (1 << (8 * ws)) - 1)
-        sid = PacketFieldEnum.with_byte_size(ws, step)
+        sid = mk_field(ws, step, concrete_cls)
     if has_fail:
         code = ctx.int("code", 0, (1 << (8 * we)) - 1)
         data = ctx.octets("fdata", nd)
-        fn = FailureNotice(PacketFieldEnum.with_byte_size(we, code), data)
+        fn = FailureNotice(mk_field(we, code, concrete_cls), data)
     return VerificationParams(req, sid, fn), dict(req_raw=req_raw, step=step, code=code, data=data, has_step=has_step, has_fail=has_fail)
 
 
-def h_report(ctx, sub, ws, we, nd, t, twin=False):
-    vp, info = mk_params(ctx, sub, ws, we, nd)
+def h_report(ctx, sub, ws, we, nd, t, twin=False, concrete_cls=False):
+    vp, info = mk_params(ctx, sub, ws, we, nd, concrete_cls=concrete_cls)
     f = dict(svc=1, sub=sub, apid=ctx.int("apid", 0, 2047), sc=ctx.int("sc", 0, 16383), mc=0, dest=ctx.int("dest", 0, 65535),
              tref=ctx.int("tref", 0, 15), ver=ctx.int("ver", 0, 7))
     ts = ctx.octets("ts", t)
@@ -190,6 +200,10 @@ def cases(tier):
                 cs.append(Case("mismatch-s%d-step%d-fail%d" % (sub, fs, ff), "mismatch", h_mismatch,
                                dict(sub=sub, force_step=fs, force_fail=ff), bounds="presence combination for subservice %d" % sub))
         cs.append(Case("helper-s%d" % sub, "helper", h_helpers, dict(sub=sub), bounds="create_* helper for subservice %d" % sub))
+    for sub in (5, 6, 2):
+        for w in (1, 2, 4):
+            cs.append(Case("report-ufield-s%d-w%d" % (sub, w), "report", h_report, dict(sub=sub, ws=w, we=w, nd=1, t=0, concrete_cls=True),
+                           bounds="subservice %d with step id / error code built through PacketFieldU%d" % (sub, 8 * w)))
     cs.append(Case("report-twin", "report", h_report, dict(sub=6, ws=1, we=1, nd=1, t=0, twin=True), expect_violation=True,
                    bounds="reachability twin"))
     return cs
